@@ -40,8 +40,8 @@ func init() {
 	register(&Rule{ID: "R44", Name: "EQUALS-SHAPE", Floor: 5,
 		Text: "each of the five Column.Equals(index, other, otherIndex): a failed type assertion on other returns false; the receiver's storage is read only at positions loaded from `index` and the other column's only at positions loaded from `otherIndex`, both at the loop's own logical row; float cells are compared as floats (no bit-pattern comparison), with the NaN==NaN exception guarded by IsNaN on both",
 		Run:  runR44})
-	register(&Rule{ID: "R45", Name: "INFER-ORDER", Floor: 3,
-		Text: "in columnToData, with the column type unspecified, every path to the float conversion passes through the int conversion, every path to the bool conversion through the float conversion, and every path to the string construction through the bool conversion (branch conditions on the data type are resolved for `None`)",
+	register(&Rule{ID: "R45", Name: "INFER-ORDER", Floor: 7,
+		Text: "in columnToData, with the column type unspecified, every path to the float conversion passes through the int conversion, every path to the bool conversion through the float conversion, and every path to the string construction through the bool conversion (branch conditions on the data type are resolved for `None`); and with the type declared as Int, Float, Bool or String the conversion of that type is reachable (conditions resolved for that constant)",
 		Run:  runR45})
 	register(&Rule{ID: "R46", Name: "STRICT-FILTER", Floor: 1,
 		Text: "in ecolumn's built-in filter, after the search for the constant among the declared values fails, a branch on the column's strict flag follows whose true edge returns a non-nil error before any bit is written or nil returned",
@@ -1317,6 +1317,7 @@ func runR45(c *Ctx) {
 			none = strings.Trim(o.Val().ExactString(), `"`)
 		}
 	}
+	world := none
 	feasible := func(from *ssa.BasicBlock, si int) bool {
 		iff, ok := from.Instrs[len(from.Instrs)-1].(*ssa.If)
 		if !ok {
@@ -1334,7 +1335,7 @@ func runR45(c *Ctx) {
 		if !isStr {
 			return true
 		}
-		truth := (k == none) == (b.Op == token.EQL)
+		truth := (k == world) == (b.Op == token.EQL)
 		// succ 0 taken when cond == val
 		taken0 := truth == val
 		return (si == 0) == taken0
@@ -1390,6 +1391,34 @@ func runR45(c *Ctx) {
 		} else {
 			c.ok(key, p.pos(fn.Pos()), "must pass through the previous conversion")
 		}
+	}
+	// explicit types: with the column declared as K, K's own conversion is reachable (branch conditions on the
+	// data type resolved for K)
+	if nt := p.PkgByID[rel("types")]; nt != nil {
+		for i, tn := range []string{"Int", "Float", "Bool", "String"} {
+			o, ok := nt.Types.Scope().Lookup(tn).(*types.Const)
+			if !ok {
+				continue
+			}
+			world = strings.Trim(o.Val().ExactString(), `"`)
+			key := fname(fn) + "|declared " + tn + " reaches " + stages[i].name
+			if len(stages[i].blks) == 0 {
+				continue // reported above
+			}
+			r := reach(nil)
+			hit := false
+			for _, b := range stages[i].blks {
+				if r[b] {
+					hit = true
+				}
+			}
+			if hit {
+				c.ok(key, p.pos(fn.Pos()), "the conversion for the declared type is reachable")
+			} else {
+				c.bad(key, p.pos(fn.Pos()), fmt.Sprintf("a column declared %s never reaches %s: the explicit type is not honoured", tn, stages[i].name))
+			}
+		}
+		world = none
 	}
 }
 
@@ -1690,6 +1719,9 @@ func runR22(c *Ctx) {
 			if !ok || ta.CommaOk {
 				return
 			}
+			if types.Identical(ta.AssertedType, ta.X.Type()) {
+				return // the nil check go/ssa emits for a method value of an interface (`m.Matches`): no type can differ
+			}
 			pk := strings.TrimPrefix(strings.TrimPrefix(fn.Pkg.Pkg.Path(), modPath), "/")
 			count[pk] = append(count[pk], p.instrPos(ta)+" in "+fname(fn)+" ("+types.TypeString(ta.AssertedType, shortQual)+")")
 		})
@@ -1753,8 +1785,14 @@ func runR23(c *Ctx) {
 func runR34(c *Ctx) {
 	p := c.P
 	declaredCardinality(c)
-	// minting functions: append to the `values` field
-	mint := map[*ssa.Function]bool{}
+	// minting sites: append to the `values` field. The two guards (!strict, len(values) <= 254) must dominate the
+	// site itself or, for what is still missing, every call of the function that contains it (up to two levels).
+	type site struct {
+		fn  *ssa.Function
+		blk *ssa.BasicBlock
+		at  ssa.Instruction
+	}
+	var sites []site
 	for _, fn := range p.FuncsIn("internal/ecolumn") {
 		eachInstr(fn, func(in ssa.Instruction) {
 			call, ok := in.(*ssa.Call)
@@ -1762,53 +1800,68 @@ func runR34(c *Ctx) {
 				return
 			}
 			if fld, _ := fieldOf(call.Call.Args[0]); fld != nil && fld.Name() == "values" {
-				mint[fn] = true
+				sites = append(sites, site{fn, call.Block(), call})
 			}
 		})
 	}
-	if len(mint) == 0 {
+	if len(sites) == 0 {
 		c.undecided("internal/ecolumn|minting function", "-", "no function appends to the values table")
 		return
 	}
-	for _, fn := range p.FuncsIn("internal/ecolumn") {
-		eachInstr(fn, func(in ssa.Instruction) {
-			call, ok := in.(*ssa.Call)
-			if !ok || !mint[call.Call.StaticCallee()] {
+	guardsAt := func(fn *ssa.Function, blk *ssa.BasicBlock) (strictOK, cardOK bool, hi int64) {
+		hi = -1
+		for _, g := range dominatingGuards(blk) {
+			if fld, _ := fieldOf(g.Cond); fld != nil && fld.Name() == "strict" && !g.Val {
+				strictOK = true
+			}
+		}
+		eachInstr(fn, func(i2 ssa.Instruction) {
+			lc, ok := i2.(*ssa.Call)
+			if !ok || builtinName(lc) != "len" {
 				return
 			}
-			key := fname(fn) + "|mint new enum value"
-			strictOK, cardOK := false, false
-			exactHi := int64(-1)
-			for _, g := range dominatingGuards(call.Block()) {
-				if fld, _ := fieldOf(g.Cond); fld != nil && fld.Name() == "strict" && !g.Val {
-					strictOK = true
-				}
+			if fld, _ := fieldOf(lc.Call.Args[0]); fld == nil || fld.Name() != "values" {
+				return
 			}
-			eachInstr(fn, func(i2 ssa.Instruction) {
-				lc, ok := i2.(*ssa.Call)
-				if !ok || builtinName(lc) != "len" {
-					return
-				}
-				if fld, _ := fieldOf(lc.Call.Args[0]); fld == nil || fld.Name() != "values" {
-					return
-				}
-				_, hi, _, hasHi := bounds(lc, call.Block())
-				if hasHi && hi <= 254 {
-					cardOK = true
-					exactHi = hi
-				}
-			})
-			switch {
-			case strictOK && cardOK && exactHi != 254:
-				c.bad(key, p.instrPos(call), fmt.Sprintf("the cardinality guard only lets a new value in while len(values) <= %d: derived enums must accept up to 255 distinct values (the 255th is minted when 254 exist)", exactHi))
-			case strictOK && cardOK:
-				c.ok(key, p.instrPos(call), "dominated by !strict and len(values) <= 254 (exactly: the 255th value is accepted, the 256th rejected)")
-			case !strictOK:
-				c.bad(key, p.instrPos(call), "a new enum value can be minted for a strict (declared) enum: undeclared values are accepted")
-			default:
-				c.bad(key, p.instrPos(call), "a new enum value can be minted when 255 values exist already: the 256th rank collides with the null marker / wraps around")
+			_, h, _, hasHi := bounds(lc, blk)
+			if hasHi && h <= 254 {
+				cardOK, hi = true, h
 			}
 		})
+		return
+	}
+	var check func(st site, strictOK, cardOK bool, hi int64, depth int)
+	check = func(st site, strictOK, cardOK bool, hi int64, depth int) {
+		s2, c2, h2 := guardsAt(st.fn, st.blk)
+		strictOK = strictOK || s2
+		if c2 {
+			cardOK, hi = true, h2
+		}
+		key := fname(st.fn) + "|mint new enum value"
+		if !(strictOK && cardOK) && depth < 3 {
+			// what is missing must hold at every call of this function
+			callers, asValue := p.staticCallSites(st.fn)
+			if len(callers) > 0 && !asValue {
+				for _, ci := range callers {
+					in := ci.(ssa.Instruction)
+					check(site{in.Parent(), in.Block(), in}, strictOK, cardOK, hi, depth+1)
+				}
+				return
+			}
+		}
+		switch {
+		case strictOK && cardOK && hi != 254:
+			c.bad(key, p.instrPos(st.at), fmt.Sprintf("the cardinality guard only lets a new value in while len(values) <= %d: derived enums must accept up to 255 distinct values (the 255th is minted when 254 exist)", hi))
+		case strictOK && cardOK:
+			c.ok(key, p.instrPos(st.at), "dominated by !strict and len(values) <= 254 (exactly: the 255th value is accepted, the 256th rejected)")
+		case !strictOK:
+			c.bad(key, p.instrPos(st.at), "a new enum value can be minted for a strict (declared) enum: undeclared values are accepted")
+		default:
+			c.bad(key, p.instrPos(st.at), "a new enum value can be minted when 255 values exist already: the 256th rank collides with the null marker / wraps around")
+		}
+	}
+	for _, st := range sites {
+		check(st, false, false, -1, 0)
 	}
 }
 
